@@ -110,8 +110,10 @@ def identity_tables(chk):
 @prop("C01")
 def c01(chk):
     chk.rule = ("cases = rows of the verifier tables (every certificate record: subject key, signer, name, algorithm, "
-                "validity, well-formedness x configuration x pin), adversary handshakes (SNI x certificate x proof key x "
-                "listener names), every single-byte mutation of a valid certificate, plus the identities handlers and "
+                "validity, well-formedness, SAN shape: name / absent / IP only / garbled, another identity's SPKI planted as "
+                "a decoy x configuration x pin), adversary handshakes (SNI x certificate x proof key x listener names; "
+                "certificate shapes x real / junk proofs under four signature-scheme labels, as dialer and as listener "
+                "with and without a pin), every single-byte mutation of a valid certificate, plus the identities handlers and "
                 "callers saw in recorded RPC runs; non-trivial = the presenter does not hold the key it claims, or the "
                 "certificate is not a plain honest one")
     chk.assumptions = ["perfect cryptography in the symbolic model; ring / rustls / webpki are trusted as libraries",
@@ -121,10 +123,11 @@ def c01(chk):
     summ = harness("replay-identity", table=path, stride=2 if quick(chk) else 1, full_mutations=0 if quick(chk) else 1,
                    seed=chk.seed)
     replay_check(chk, "identity", summ)
-    for k in ("id_client", "id_server", "id_advdial"):
+    for k in ("id_client", "id_server", "id_advdial", "id_advshape"):
         for r in tables[k]:
             c = r["cert"]
             if not (c["subj"] == c["signer"] and c["alg"] == "ed25519" and c["validity"] == "ok" and c["wf"]
+                    and c["decoy"] == "none" and c["san"] in ("n1", "n2", "n3")
                     and r.get("proof", c["subj"]) == c["subj"]):
                 chk.distinct.add(json.dumps(r, sort_keys=True))
     chk.sample(tables["id_advdial"][5])
@@ -156,7 +159,7 @@ def c14(chk):
     for r in tables["id_pairs"]:
         if r["d"] != r["l"]:
             chk.distinct.add(json.dumps(r, sort_keys=True))
-    for r in tables["id_advdial"]:
+    for r in tables["id_advdial"] + tables["id_advshape"]:
         chk.distinct.add(json.dumps(r, sort_keys=True))
     chk.sample(tables["id_pairs"][17])
     chk.exhaustive = True
